@@ -14,7 +14,14 @@ macro_rules! json_part {
         let v3 = v.clone();
         m.insert("json".into(), call(move || v2.to_json()).to_json(|js| {
             let js2 = js.clone();
-            obj(vec![("len", json!(js.len())), ("from_json", call(move || <$ty>::from_json(&js2)).to_json(|w| obj(vec![("eq", json!(w == v3)), ("to_bytes", call_total(|| w.to_bytes()).to_json(|x| obj(vec![("b", jbytes(&x))])))])))])
+            let js3 = js.clone();
+            obj(vec![("len", json!(js.len())), ("from_json", call(move || <$ty>::from_json(&js2)).to_json(|w| {
+                let w2 = w.clone();
+                // second pass: the value read from JSON is one built without any retained encoding detail
+                let again = call(move || -> Result<(bool, Vec<u8>), csl::JsError> { let j2 = w2.to_json()?; let u = <$ty>::from_json(&j2)?; Ok((j2 == js3, u.to_bytes())) });
+                obj(vec![("eq", json!(w == v3)), ("to_bytes", call_total(|| w.to_bytes()).to_json(|x| obj(vec![("b", jbytes(&x))]))),
+                         ("again", again.to_json(|(same, b)| obj(vec![("same_json", json!(same)), ("b", jbytes(&b))])))])
+            }))])
         }));
     }};
     (nojson, $ty:ty, $v:ident, $m:ident) => {{ let _ = (&$v, &$m); }};
